@@ -125,6 +125,25 @@ func init() {
 		if err := emit("forwardPrepareFlushCalls", FindFunc(mif, "forwardIndex", "prepareFlush"), "forwardIndex.prepareFlush"); err != nil {
 			return "", err
 		}
+		// ---- tsdb/memdb/index_database.go: the double-checked creation of a metric's memory index
+		_, mdf, err := ParseFile(repo, "tsdb/memdb/index_database.go")
+		if err != nil {
+			return "", err
+		}
+		if err := emit("memdbGetOrCreateTSICalls", FindFunc(mdf, "indexDatabase", "GetOrCreateTimeSeriesIndex"), "indexDatabase.GetOrCreateTimeSeriesIndex"); err != nil {
+			return "", err
+		}
+		if err := emit("memdbGetOrCreateTSIInnerCalls", FindFunc(mdf, "indexDatabase", "getOrCreateTimeSeriesIndex"), "indexDatabase.getOrCreateTimeSeriesIndex"); err != nil {
+			return "", err
+		}
+		// ---- index/v1/index_kv_merger.go: the dictionary compaction merger
+		_, mgf, err := ParseFile(repo, "index/v1/index_kv_merger.go")
+		if err != nil {
+			return "", err
+		}
+		if err := emit("kvMergerMergeCalls", FindFunc(mgf, "indexKVMerger", "Merge"), "indexKVMerger.Merge"); err != nil {
+			return "", err
+		}
 		// ---- default limits (models/limits.go, NewDefaultLimits composite literal)
 		_, lf, err := ParseFile(repo, "models/limits.go")
 		if err != nil {
